@@ -550,6 +550,8 @@ class PipelineBuilder:
                     raise RuntimeError(f"invalid node {node}")
 
         cfg.aliases = {a: t.name for (a, t) in sorted(self._aliases.items(), key=lambda kv: kv[0])}
+        # literals are named by their content; list them by name, not in the order they were declared
+        cfg.literals = dict(sorted(cfg.literals.items(), key=lambda kv: kv[0]))
 
         if self._default:
             cfg.default = self._default
